@@ -765,6 +765,55 @@ def sequential(prop, pk, T, N, letters, ins, fw, vio):
     return seq, n
 
 
+def layerwalk(prop, pk, T, N, letters, ins, vio, seq=None):
+    """Layers of a circuit that was compiled AT CIRCUIT LEVEL are layers too: for every layer of the
+    compiled circuit backward(forward(x)) == x and forward(backward(x)) == x (C10), and applying the
+    layers' forward one after the other equals the sequential oracle (C09)."""
+    n = 0
+    for cls in pk.classes:
+        c = 'cc' if cls == 'CliffordCircuit' else 'ct'
+        try:
+            circ, gates = build(pk, cls, N, letters)
+            pk.compile(circ, N)
+            layers = list(itertools.islice(circ.layers_forward(), CAP))
+        except Exception:
+            continue     # a failing compile is reported by the 'compiled' configuration
+        for ii, inp in enumerate(ins):
+            if prop == 'C10':
+                for li, lay in enumerate(layers):
+                    for order in ('fb', 'bf'):
+                        obj = pk.fresh(inp)
+                        before = observe(pk, obj, inp)
+                        try:
+                            if order == 'fb':
+                                lay.forward(obj); lay.backward(obj)
+                            else:
+                                lay.backward(obj); lay.forward(obj)
+                        except Exception as e:
+                            vio('%s/%s.compiled-layerwalk/raises-%s' % (T, c, type(e).__name__), 'layer %d of the compiled %s raised %s: %s' % (li, cls, type(e).__name__, e))
+                            return n + 1
+                        after = observe(pk, obj, inp)
+                        n += 2
+                        if isinstance(after, str) or not same(after, before[0], before[1], before[2]):
+                            vio('%s/%s.compiled-layerwalk/%s/layer>=%d' % (T, c, 'backward-after-forward' if order == 'fb' else 'forward-after-backward', min(li, 1)),
+                                'layer %d of %d of the circuit-compiled %s: %s does not return %s to its original value' % (li, len(layers), cls, 'backward(forward(x))' if order == 'fb' else 'forward(backward(x))', inp.name))
+                            return n
+            else:
+                obj = pk.fresh(inp)
+                try:
+                    for lay in layers:
+                        lay.forward(obj)
+                except Exception as e:
+                    vio('%s/%s.compiled-layerwalk/raises-%s' % (T, c, type(e).__name__), 'walking the layers of the compiled %s raised %s: %s' % (cls, type(e).__name__, e))
+                    return n + 1
+                after = observe(pk, obj, inp)
+                n += len(layers)
+                if seq is not None and (isinstance(after, str) or not same(after, seq[ii][0], seq[ii][1], seq[ii][2])):
+                    vio('%s/%s.compiled-layerwalk/forward' % (T, c), 'applying the layers of the circuit-compiled %s one by one to %s differs from gate-by-gate application' % (cls, inp.name))
+                    return n
+    return n
+
+
 # ======================================================================= program runner
 def run_programs(prop, tag, items):
     """items = [[N, [letter indices]], ...].  prop in {'C09','C10'}; tag in {'py','torch'}."""
@@ -827,6 +876,10 @@ def run_programs(prop, tag, items):
                 n += 1
                 for phase, what, msg in structs[:3]:
                     vio('%s/structure/%s/%s' % (T, phase, what), '%s: %s' % (label, msg))
+        if tag == 'py' and L >= 2:
+            c = layerwalk(prop, pk, T, N, letters, ins, vio, seq=seq)
+            n += c
+            extra['cfg_compiled-layerwalk'] = extra.get('cfg_compiled-layerwalk', 0) + 1
         if not samples and L >= 2 and order_matters:
             e0 = int(ref.elem_index(np.eye(2 * N, dtype=I64)[0], 0, N))
             samples.append({'N': N, 'program': names, 'reference_depth': depth,
